@@ -23,7 +23,7 @@ use serde_json::json;
 pub const BASE_HEIGHT: u32 = 130;
 
 /// Names of the transactions of the universe.
-#[derive(Clone, Copy, Debug, PartialEq, Eq, Hash, PartialOrd, Ord)]
+#[derive(Clone, Copy, Debug, PartialEq, Eq, Hash, PartialOrd, Ord, serde::Serialize, serde::Deserialize)]
 pub enum TxName {
     /// Dispute (revoked commitment) k, spends funding coin k.
     D(u8),
@@ -50,6 +50,17 @@ pub fn funding_outpoint(k: u8) -> OutPoint {
     }
 }
 
+/// A dispute (revoked commitment): output 0 is what the penalty sweeps, output 1 (the counterparty's
+/// balance) is never spent, like in a real commitment transaction.
+fn dispute_tx(input: OutPoint, value: u64) -> Transaction {
+    let mut tx = simple_tx(input, value, vec![0x51]);
+    tx.output.push(TxOut {
+        value: Amount::from_sat(10_000),
+        script_pubkey: ScriptBuf::from_bytes(vec![0x52]),
+    });
+    tx
+}
+
 fn simple_tx(input: OutPoint, value: u64, script: Vec<u8>) -> Transaction {
     Transaction {
         version: Version::TWO,
@@ -69,8 +80,8 @@ fn simple_tx(input: OutPoint, value: u64, script: Vec<u8>) -> Transaction {
 
 pub fn build_tx(name: TxName) -> Transaction {
     match name {
-        TxName::D(k) => simple_tx(funding_outpoint(k), 50_000, vec![0x51]),
-        TxName::DAlt(k) => simple_tx(funding_outpoint(k), 49_000, vec![0x51]),
+        TxName::D(k) => dispute_tx(funding_outpoint(k), 50_000),
+        TxName::DAlt(k) => dispute_tx(funding_outpoint(k), 49_000),
         TxName::P(k) => simple_tx(
             OutPoint {
                 txid: build_tx(TxName::D(k)).compute_txid(),
@@ -220,7 +231,7 @@ pub struct RpcRecord {
 }
 
 /// How the replacement branch of a reorg is filled.
-#[derive(Clone, Copy, Debug, PartialEq, Eq, Hash, PartialOrd, Ord)]
+#[derive(Clone, Copy, Debug, PartialEq, Eq, Hash, PartialOrd, Ord, serde::Serialize, serde::Deserialize)]
 pub enum Replacement {
     /// Transactions of the i-th disconnected block are mined in the i-th replacement block.
     Same,
@@ -242,6 +253,8 @@ pub struct SimChain {
     pub mempool: BTreeMap<Txid, Transaction>,
     /// txid -> (block hash, height) for non-coinbase transactions on the active chain.
     confirmed: HashMap<Txid, (BlockHash, u32)>,
+    /// number of outputs of each confirmed transaction
+    n_outputs: HashMap<Txid, u32>,
     /// Outpoints spent by confirmed transactions of the active chain.
     spent: HashMap<OutPoint, Txid>,
     pub txindex: bool,
@@ -275,6 +288,7 @@ impl SimChain {
             active,
             mempool: BTreeMap::new(),
             confirmed: HashMap::new(),
+            n_outputs: HashMap::new(),
             spent: HashMap::new(),
             txindex,
             tag_counter: 0,
@@ -315,6 +329,21 @@ impl SimChain {
         self.mempool.contains_key(txid)
     }
 
+    /// Height at which `txid` is confirmed on the branch ending at `tip` (not necessarily active).
+    pub fn confirmation_on_branch(&self, txid: &Txid, tip: &BlockHash) -> Option<(BlockHash, u32)> {
+        let mut cur = *tip;
+        loop {
+            let e = self.blocks.get(&cur)?;
+            if e.height <= BASE_HEIGHT {
+                return None;
+            }
+            if e.block.txdata[1..].iter().any(|t| t.compute_txid() == *txid) {
+                return Some((cur, e.height));
+            }
+            cur = e.block.header.prev_blockhash;
+        }
+    }
+
     /// Non-coinbase transactions of the active block at `height`.
     pub fn block_txs(&self, height: u32) -> Vec<Transaction> {
         self.active_hash(height).map_or(vec![], |h| {
@@ -336,12 +365,14 @@ impl SimChain {
         }
         self.active.truncate(BASE_HEIGHT as usize + 1);
         self.confirmed.clear();
+        self.n_outputs.clear();
         self.spent.clear();
         for h in chain.into_iter().rev() {
             let e = &self.blocks[&h];
             for tx in e.block.txdata[1..].iter() {
                 let txid = tx.compute_txid();
                 self.confirmed.insert(txid, (h, e.height));
+                self.n_outputs.insert(txid, tx.output.len() as u32);
                 for i in tx.input.iter() {
                     self.spent.insert(i.previous_output, txid);
                 }
@@ -352,8 +383,9 @@ impl SimChain {
 
     fn coin_exists(&self, o: &OutPoint, allow_mempool_parent: bool) -> bool {
         let is_funding = (1..=3u8).any(|k| funding_outpoint(k) == *o);
-        let from_confirmed = self.confirmed.contains_key(&o.txid) && o.vout == 0;
-        let from_mempool = allow_mempool_parent && self.mempool.contains_key(&o.txid) && o.vout == 0;
+        let from_confirmed = self.n_outputs.get(&o.txid).map_or(false, |n| o.vout < *n);
+        let from_mempool = allow_mempool_parent
+            && self.mempool.get(&o.txid).map_or(false, |t| (o.vout as usize) < t.output.len());
         (is_funding || from_confirmed || from_mempool) && !self.spent.contains_key(o)
     }
 
@@ -433,7 +465,10 @@ impl SimChain {
             let ok = tx.input.iter().all(|i| {
                 let o = &i.previous_output;
                 !spent_here.contains(o)
-                    && (self.coin_exists(o, false) || (incl_ids.contains(&o.txid) && o.vout == 0))
+                    && (self.coin_exists(o, false)
+                        || included
+                            .iter()
+                            .any(|p| p.compute_txid() == o.txid && (o.vout as usize) < p.output.len()))
             });
             if ok {
                 for i in tx.input.iter() {
